@@ -1120,6 +1120,8 @@ def is_(a, b):
             return FALSE
         if is_op(other, 'WEAKREF') or is_op(other, 'ITER'):
             return FALSE      # the reference / iterator object itself
+        if tag(other) == 'sym' and (sym_meta(other, 'callable') or sym_meta(other, 'cls')):
+            return FALSE      # a symbol that stands for a function / an object of a class
         return ('op', 'IS', other, NONE)
     if _all_const(a, b):
         return const(a[1] is b[1] or a[1] == b[1])
